@@ -11,7 +11,8 @@ from harness.common import registry as R, tcorr, bits
 PROPERTY = 'C07'
 LEVEL = 'proof'
 REQUIRED_THEOREMS = ['Properties.C07.identity_passthrough', 'Properties.C07.cond_sees_only_identity', 'Properties.C07.transformed_depends_on',
-                     'Properties.C07.idx_partition', 'Properties.C07.param_layout_img', 'Properties.C07.exec_identity_passthrough', 'Properties.C07.exec_conditioner_input', 'Properties.C07.exec_refines_abstract_identity']
+                     'Properties.C07.idx_partition', 'Properties.C07.param_layout_img', 'Properties.C07.exec_identity_passthrough', 'Properties.C07.exec_conditioner_input', 'Properties.C07.exec_refines_abstract_identity',
+    "Properties.C07.exec_coupling_param_dependence", "Properties.C07.exec_coupling_param_dependence_row", "Properties.C07.exec_coupling_no_cross_dependence", "Properties.C07.exec_coupling_no_cross_dependence_set", "Properties.C07.exec_coupling_feature_monotone", "Properties.C07.exec_coupling_feature_monotone_additive", "Properties.C07.exec_coupling_feature_monotone_affine", "Properties.C07.exec_coupling_feature_monotone_rq_tails", "Properties.C07.exec_coupling_feature_monotone_rq", "Properties.C07.exec_coupling_feature_monotone_lin", "Properties.C07.exec_coupling_entry_monotone", "Properties.C07.exec_coupling_jacobian_triangular", "Properties.C07.exec_coupling_jacobian_diag_pos", "Properties.C07.exec_coupling_jacobian_det_pos", "Properties.C07.exec_coupling_jacobian_invertible", "Properties.C07.exec_coupling_local_diffeo", "Properties.C07.exec_identity_passthrough_weak", "Properties.C07.exec_identity_unconditional", "Properties.C07.exec_transformed_entry", "Properties.C07.passthrough_needs_not_gt",]
 RULE = ("every non-trivial mask subset for n<=4 (thorough: n<=5) with numeric entries drawn from {-2.5,-1,0,0.1,1,3}, x {additive, affine, linear, quadratic, "
         "cubic, rational-quadratic} coupling x {2-D, image} x {context, none} x both directions; distinct = (class, mask pattern, direction, img, ctx); "
         "non-trivial = at least one transformed feature changed")
